@@ -34,15 +34,16 @@ type cfgField struct {
 	Repeated bool   `json:"repeated"`
 	Message  string `json:"message"` // "" = scalar
 	kind     descriptorpb.FieldDescriptorProto_Type
+	IsMap    bool `json:"isMap,omitempty"`
 }
 
 var cfgMessages = map[string][]cfgField{
-	"Deep":  {{"leaf", false, "", descriptorpb.FieldDescriptorProto_TYPE_STRING}},
-	"Inner": {{"id", false, "", descriptorpb.FieldDescriptorProto_TYPE_STRING}, {"nums", true, "", descriptorpb.FieldDescriptorProto_TYPE_INT32}, {"deep", false, "Deep", 0}},
-	"Req": {{"name", false, "", descriptorpb.FieldDescriptorProto_TYPE_STRING}, {"n", false, "", descriptorpb.FieldDescriptorProto_TYPE_INT32},
-		{"tags", true, "", descriptorpb.FieldDescriptorProto_TYPE_STRING}, {"inner", false, "Inner", 0}, {"inners", true, "Inner", 0},
-		{"data", false, "", descriptorpb.FieldDescriptorProto_TYPE_BYTES}},
-	"Resp": {{"name", false, "", descriptorpb.FieldDescriptorProto_TYPE_STRING}, {"inner", false, "Inner", 0}, {"items", true, "", descriptorpb.FieldDescriptorProto_TYPE_STRING}},
+	"Deep":  {{"leaf", false, "", descriptorpb.FieldDescriptorProto_TYPE_STRING, false}},
+	"Inner": {{"id", false, "", descriptorpb.FieldDescriptorProto_TYPE_STRING, false}, {"nums", true, "", descriptorpb.FieldDescriptorProto_TYPE_INT32, false}, {"deep", false, "Deep", 0, false}},
+	"Req": {{"name", false, "", descriptorpb.FieldDescriptorProto_TYPE_STRING, false}, {"n", false, "", descriptorpb.FieldDescriptorProto_TYPE_INT32, false},
+		{"tags", true, "", descriptorpb.FieldDescriptorProto_TYPE_STRING, false}, {"inner", false, "Inner", 0, false}, {"inners", true, "Inner", 0, false},
+		{"data", false, "", descriptorpb.FieldDescriptorProto_TYPE_BYTES, false}},
+	"Resp": {{"name", false, "", descriptorpb.FieldDescriptorProto_TYPE_STRING, false}, {"inner", false, "Inner", 0, false}, {"items", true, "", descriptorpb.FieldDescriptorProto_TYPE_STRING, false}},
 }
 
 type cfgMethod struct {
@@ -132,6 +133,8 @@ type cfgBinding struct {
 
 type cfgRule struct {
 	Selector string `json:"selector"`
+	// Extra marks a WithRules rule in the schema stream (the others there come from annotations).
+	Extra bool `json:"extra,omitempty"`
 	cfgBinding
 	Additional []cfgBinding `json:"additional,omitempty"`
 }
